@@ -29,6 +29,9 @@ def generate(rng):
         scn['use_poll'] = rng.random() < 0.35
     if tr == 'pty':
         scn['eof_flavour'] = rng.choice(['eio', 'eio', 'empty'])
+    if tr == 'sock':
+        # the socket object's own timeout setting must not leak into the call's deadline
+        scn['sock_timeout'] = rng.choice([None, None, 0.0, 0.25, 1.0, 7.5])
     if rng.random() < 0.3:
         scn['enc'] = 'utf-8'
     inst = rng.choice([0.05, 0.3, 1.0, 2.5])
